@@ -225,6 +225,8 @@ def bounded_runtime_kinds(tier, seed):
                        "cat": "#/components/schemas/Cat", "dog": "#/components/schemas/Dog", "bird": "#/components/schemas/Bird"}}},
                    Color={"type": "string", "enum": ["red", "dark-green", ""]},
                    Priority={"type": "integer", "enum": [0, 1, 2]},
+                   Full=C.obj({"title": P["str"], "rows": {"type": "array", "items": P["int"]}}, ["title", "rows"]),
+                   Summary=C.obj({"total": P["int"], "note": P["str"]}, ["total"]),
                    Zoo=C.obj({"star": R("Animal"), "all": {"type": "array", "items": R("Animal")}, "byName": {"type": "object", "additionalProperties": R("Animal")}, "tint": R("Color")}, ["star"]))
     ops = [C.op("/animal", "get", "getAnimal", ["k"], responses={"200": C.resp_json(R("Animal")), "203": C.resp_json(R("Animal"))}),
            C.op("/animals", "get", "listAnimals", ["k"], responses={"200": C.resp_json({"type": "array", "items": R("Animal")})}),
@@ -233,6 +235,9 @@ def bounded_runtime_kinds(tier, seed):
            C.op("/color", "get", "getColor", ["k"], responses={"200": C.resp_json(R("Color")), "201": C.resp_json(R("Color"))}),
            C.op("/priority", "get", "getPriority", ["k"], responses={"200": C.resp_json(R("Priority"))}),
            C.op("/colors", "get", "listColors", ["k"], responses={"200": C.resp_json({"type": "array", "items": R("Color")})}),
+           # several JSON-family media types with DIFFERENT schemas on one response: the Content-Type of the answer selects the schema
+           C.op("/report", "get", "getReport", ["k"], responses={"200": {"description": "ok", "content": {
+               "application/json": {"schema": R("Full")}, "application/vnd.acme.summary+json": {"schema": R("Summary")}, "application/vnd.acme.v2+json": {"schema": R("Full")}}}}),
            C.op("/count", "get", "getCount", ["k"], responses={"200": C.resp_json(P["int"])}),
            C.op("/flag", "get", "getFlag", ["k"], responses={"200": C.resp_json(P["bool"])}),
            C.op("/text", "get", "getText", ["k"], responses={"200": C.resp_json(P["str"])})]
@@ -244,7 +249,9 @@ def bounded_runtime_kinds(tier, seed):
     cases = [("get_animal", 200, cat, "Cat"), ("get_animal", 200, dog, "Dog"), ("get_animal", 200, bird, "Bird"), ("get_animal", 203, dog, "Dog"),
              ("list_animals", 200, [bird, dog, cat], None), ("get_zoo", 200, {"star": dog, "all": [cat, bird], "byName": {"x": bird, "y": dog}, "tint": ""}, "Zoo"),
              ("map_pets", 200, {"a": pet}, None), ("get_color", 200, "dark-green", "Color"), ("get_color", 200, "", "Color"), ("get_color", 201, "red", "Color"),
-             ("get_priority", 200, 0, "Priority"), ("get_priority", 200, 2, "Priority"), ("list_colors", 200, ["red", ""], None), ("get_count", 200, 0, None),
+             ("get_priority", 200, 0, "Priority"), ("get_priority", 200, 2, "Priority"), ("list_colors", 200, ["red", ""], None),
+             ("get_report", 200, {"title": "t", "rows": [1, 0]}, "Full", "application/json"), ("get_report", 200, {"total": 0, "note": "n"}, "Summary", "application/vnd.acme.summary+json"),
+             ("get_report", 200, {"title": "t2", "rows": []}, "Full", "application/vnd.acme.v2+json; charset=utf-8"), ("get_count", 200, 0, None),
              ("get_flag", 200, False, None), ("get_text", 200, "", None)]
     failures, n = [], 0
     root = G.scratch("c05k")
@@ -262,7 +269,7 @@ def bounded_runtime_kinds(tier, seed):
             cases = json.loads(%r)
             state = {}
             def handler(req):
-                return httpx.Response(state["status"], json=state["body"])
+                return httpx.Response(state["status"], content=json.dumps(state["body"]).encode("utf-8"), headers={"content-type": state.get("ctype") or "application/json"})
             def norm(x):
                 if isinstance(x, dict):
                     return {k: norm(v) for k, v in x.items() if v is not None}
@@ -274,8 +281,9 @@ def bounded_runtime_kinds(tier, seed):
                 t._client = httpx.AsyncClient(base_url="https://x.invalid", transport=httpx.MockTransport(handler))
                 c = APIClient(ClientConfig(base_url="https://x.invalid"), transport=t)
                 bad = []
-                for meth, sc, body, cls in cases:
-                    state.update(status=sc, body=body)
+                for case in cases:
+                    meth, sc, body, cls = case[:4]
+                    state.update(status=sc, body=body, ctype=(case[4] if len(case) > 4 else None))
                     try:
                         r = await getattr(c.k, meth)()
                         back = json.loads(json.dumps(DataclassSerializer.serialize(r)))
@@ -295,7 +303,7 @@ def bounded_runtime_kinds(tier, seed):
             failures.append({"id": "bounded:runtime-kinds:harness", "detail": out[-500:], "input": {}})
         else:
             for meth, sc, body, why in json.loads(line[7:]):
-                kind = "union" if "animal" in meth or "zoo" in meth else "scalar-or-container"
+                kind = "union" if "animal" in meth or "zoo" in meth else ("media-type" if meth == "get_report" else "scalar-or-container")
                 failures.append({"id": f"bounded:runtime-kinds:{meth}:{kind}:{(body.get('petType') if isinstance(body, dict) else type(body).__name__)}",
                                  "detail": f"{meth} answering {sc} with {json.dumps(body)[:160]}: {why}"[:500], "input": {"method": meth, "status": sc, "body": body}})
     finally:
